@@ -149,11 +149,146 @@ def extract():
             facts["unknown"] += 1
         ev.append((nl, na, stable, key_rule, v))
 
-    facts.update(respond=len(respond), downgrade=len(down), severity=len(sev), evaluate=len(ev))
-    return _render(lv, ac, s1, s2, respond, down, sev, ev), facts
+    # --- BaselineProfile(...) + check, on scales that are not 0..1 -------------------------------------------------
+    chk = _check_probes(T, BaselineProfile, TCell, facts)
+    # --- Thymus.train on windows of identical fingerprints, on several scales -------------------------------------
+    trn = _train_probes(T, facts)
+
+    facts.update(respond=len(respond), downgrade=len(down), severity=len(sev), evaluate=len(ev), check=len(chk),
+                 train=len(trn))
+    return _render(lv, ac, s1, s2, respond, down, sev, ev, chk=chk, trn=trn), facts
 
 
-def _render(lv, ac, s1, s2, respond, down, sev, ev, note=""):
+# numbers of the probes below are multiples of 1/256: exact as floats, exact as `Rat`
+Q = 256
+
+
+def _q(x):
+    """Fraction / float -> integer number of 256ths, or None when it is not one (then the row is `none`)"""
+    from fractions import Fraction
+    try:
+        f = Fraction(x) * Q
+    except Exception:
+        return None
+    return int(f) if f.denominator == 1 else None
+
+
+def _peptide(T, lm, ls, tm, ts, cm, cs, v, sh, er, ca):
+    return T.MHCPeptide(agent_id="a", timestamp=_dt.datetime(2026, 1, 1), output_length_mean=float(lm),
+                        output_length_std=float(ls), response_time_mean=float(tm), response_time_std=float(ts),
+                        vocabulary_hash=f"v{v}", structure_hash=f"s{sh}", confidence_mean=float(cm),
+                        confidence_std=float(cs), error_rate=float(er), error_types=(),
+                        canary_accuracy=None if ca is None else float(ca))
+
+
+def _check_probes(T, BaselineProfile, TCell, facts):
+    """`BaselineProfile(<bounds>)` constructed through its public constructor, then `.check(fingerprint)` — directly and as
+    the profile a `TCell` holds — on fingerprints below / at / inside / at / above every bound, one check at a time and
+    in combinations, for baselines on five scales (0..1, upper confidence bound above 1, percent / milliseconds / bytes
+    with an error maximum above 1, log-probabilities straddling 0, negative percentages).  Observed: the NUMBER of
+    violations (message texts are not looked at)."""
+    from fractions import Fraction as F
+    d = F(1, 64)
+    profiles = [
+        ((F(10), F(20), F(1, 2), F(3, 2), F(1, 2), F(1), F(1, 8), F(3, 4)), (F(15), F(1), F(3, 4), F(0))),
+        ((F(10), F(20), F(1, 2), F(3, 2), F(15, 16), F(69, 64), F(3, 2), F(3, 4)), (F(15), F(1), F(33, 32), F(5, 4))),
+        ((F(10240), F(20480), F(500), F(1500), F(85), F(105), F(3, 2), F(3, 4)), (F(15000), F(1000), F(205, 2), F(5, 4))),
+        ((F(10), F(20), F(1, 2), F(3, 2), F(-1, 4), F(1, 8), F(1, 8), F(1, 2)), (F(15), F(1), F(-1, 8), F(0))),
+        ((F(-5), F(5), F(-1), F(1), F(-100), F(-50), F(100), F(1)), (F(0), F(0), F(-75), F(50))),
+    ]
+    rows = []
+    for pr, inside in profiles:
+        variants = [(list(inside), 1, 1, F(1))]
+        for k in range(3):                       # length, time, confidence: below / at / at / above
+            lo, hi = pr[2 * k], pr[2 * k + 1]
+            for x in (lo - d, lo, hi, hi + d):
+                fp = list(inside)
+                fp[k] = x
+                variants.append((fp, 1, 1, F(1)))
+        for x in (pr[6] - d, pr[6], pr[6] + d):
+            fp = list(inside)
+            fp[3] = x
+            variants.append((fp, 1, 1, F(1)))
+        variants.append((list(inside), 9, 1, F(1)))
+        variants.append((list(inside), 2, 1, F(1)))
+        variants.append((list(inside), 1, 9, F(1)))
+        for ca in (None, pr[7] - d, pr[7], pr[7] + d, F(0)):
+            variants.append((list(inside), 1, 1, ca))
+        out = [pr[0] - d, pr[3] + d, pr[5] + d, pr[6] + d]
+        variants.append((out, 9, 9, pr[7] - d))
+        variants.append((out[:2] + list(inside[2:]), 1, 1, F(1)))
+        variants.append((list(inside[:2]) + out[2:], 1, 9, None))
+        for fp, v, sh, ca in variants:
+            n = None
+            try:
+                def build():
+                    return BaselineProfile(
+                        agent_id="a", output_length_bounds=(float(pr[0]), float(pr[1])),
+                        response_time_bounds=(float(pr[2]), float(pr[3])), confidence_bounds=(float(pr[4]), float(pr[5])),
+                        error_rate_max=float(pr[6]), valid_vocabulary_hashes={"v1", "v2"}, valid_structure_hashes={"s1"},
+                        canary_accuracy_min=float(pr[7]))
+                pep = _peptide(T, fp[0], 0, fp[1], 0, fp[2], 0, v, sh, fp[3], ca)
+                n1 = len(build().check(pep))
+                r = TCell(profile=build()).inspect(pep)
+                n2 = len(r.violations)
+                if n1 == n2 and (r.signal1 is T.Signal1.NON_SELF) == (n1 > 0) and (r.signal1 is T.Signal1.SELF) == (n1 == 0):
+                    n = n1
+            except Exception:
+                n = None
+            nums = [_q(x) for x in pr]
+            fpn = [_q(x) for x in fp]
+            can = None if ca is None else _q(ca)
+            if n is None or None in nums or None in fpn or (ca is not None and can is None):
+                facts["unknown"] += 1
+                n = None
+            rows.append((nums, fpn, v, sh, can if ca is not None else None, ca is not None, n))
+    return rows
+
+
+def _train_probes(T, facts):
+    """`Thymus(min_training_samples=k, tolerance=tol).train` on k identical fingerprints whose reported deviations are
+    dyadic and >= 1/64 (so `max(actual, reported, 0.01)` is the reported one and every bound is an exact float), error
+    rates with `2·max >= 0.05`, no canary: the profile that comes back, bound by bound, on several scales."""
+    from fractions import Fraction as F
+    rows = []
+    try:
+        from operon_ai.surveillance.thymus import Thymus, SelectionResult
+    except Exception:
+        facts["unknown"] += 1
+        return rows
+    fps = [
+        (F(40), F(1, 4), F(1), F(1, 64), F(3, 4), F(1, 16), F(1, 32)),           # 0..1
+        (F(40), F(2), F(1, 2), F(1, 8), F(1), F(1, 32), F(1, 4)),                # always certain: bounds straddle 1
+        (F(40), F(1, 4), F(1), F(1, 64), F(15, 16), F(1, 16), F(3, 4)),          # upper bound above 1, errors above 1/2
+        (F(40960), F(256), F(1000), F(125), F(175, 2), F(25, 8), F(25)),         # percent, milliseconds, bytes
+        (F(40), F(1, 4), F(1), F(1, 64), F(-1, 8), F(1, 16), F(1, 32)),          # log-probability: straddles 0
+        (F(40), F(1, 4), F(1), F(1, 64), F(-75), F(5), F(1, 32)),                # negative percentages
+        (F(0), F(1, 64), F(0), F(1, 64), F(0), F(1, 64), F(1, 32)),              # everything at zero
+    ]
+    for fp in fps:
+        for k, tol in ((1, F(2)), (3, F(2)), (2, F(1, 2)), (2, F(0)), (10, F(3))):
+            prof = None
+            try:
+                th = Thymus(min_training_samples=k, tolerance=float(tol), variance_threshold=0.5)
+                pep = _peptide(T, fp[0], fp[1], fp[2], fp[3], fp[4], fp[5], 1, 1, fp[6], None)
+                got, res = th.train("a", [pep] * k)
+                if res is SelectionResult.POSITIVE and got is not None and got.valid_vocabulary_hashes == {"v1"} \
+                        and got.valid_structure_hashes == {"s1"} and th.get_profile("a") is got:
+                    prof = [_q(x) for x in (got.output_length_bounds[0], got.output_length_bounds[1],
+                                            got.response_time_bounds[0], got.response_time_bounds[1],
+                                            got.confidence_bounds[0], got.confidence_bounds[1], got.error_rate_max,
+                                            got.canary_accuracy_min)]
+                    if None in prof or len(got.output_length_bounds) != 2 or len(got.confidence_bounds) != 2:
+                        prof = None
+            except Exception:
+                prof = None
+            if prof is None:
+                facts["unknown"] += 1
+            rows.append((k, _q(tol), [_q(x) for x in fp], prof))
+    return rows
+
+
+def _render(lv, ac, s1, s2, respond, down, sev, ev, note="", chk=(), trn=()):
     def lst(items, per_line=4):
         if not items:
             return "[]"
@@ -192,6 +327,22 @@ def _render(lv, ac, s1, s2, respond, down, sev, ev, note=""):
     o.append("    (suppressed, modified_action); original_action was checked to be the input action -/")
     o.append("def evaluateTable : List ((Option Level × Option Action × Bool × Option (Level × Bool)) × Option (Bool × Action)) := "
              + lst([f"(({_opt(a)}, {_opt(b)}, {_b(c)}, {d if d is not None else 'none'}), {_opt(v)})" for a, b, c, d, v in ev], 2))
+    o.append("")
+
+    def ints(xs):
+        return "[" + ", ".join(str(x) for x in xs) + "]"
+    o.append("/-- `BaselineProfile(<bounds>)` built by its constructor, then `.check(<fingerprint>)` (directly and as the profile a")
+    o.append("    `TCell` holds), numbers in 256ths: (lenLo, lenHi, timeLo, timeHi, confLo, confHi, errMax, canaryMin) with vocabularies")
+    o.append("    {1, 2} and structures {1}; (lenMean, timeMean, confMean, errRate), vocabulary, structure, canary ↦ number of violations -/")
+    o.append("def checkProbes : List (List Int × (List Int × Nat × Nat × Option Int) × Option Nat) := "
+             + lst([f"({ints(pr)}, ({ints(fp)}, {v}, {sh}, {'some (' + str(ca) + ')' if has else 'none'}), {_opt(n)})"
+                    for pr, fp, v, sh, ca, has, n in chk], 1))
+    o.append("")
+    o.append("/-- `Thymus(min_training_samples=k, tolerance=tol).train` on k identical fingerprints (numbers in 256ths):")
+    o.append("    k, tol, (lenMean, lenStd, timeMean, timeStd, confMean, confStd, errRate) ↦ the profile's")
+    o.append("    (lenLo, lenHi, timeLo, timeHi, confLo, confHi, errMax, canaryMin) -/")
+    o.append("def trainProbes : List (Nat × Int × List Int × Option (List Int)) := "
+             + lst([f"({k}, {tol}, {ints(fp)}, {_opt(None if pr is None else ints(pr))})" for k, tol, fp, pr in trn], 1))
     o.append("")
     o.append("end Operon.Immune.Gen")
     return "\n".join(o) + "\n"
